@@ -51,7 +51,8 @@ CONSTANTS Pkgs,       \* sequence of package names in dependency order: a packag
           LevelDefs,  \* default levels explored
           LevelPkgs,  \* per-package levels explored ("-" = no per-package entry)
           OptSet,     \* option variants explored, see OptOf
-          Devs        \* open findings (as-built deviations of /repo) that excuse a property in the completeness invariants
+          Devs,       \* open findings (as-built deviations of /repo) that excuse a property in the completeness invariants
+          FixOverrideLoop \* BOOLEAN: transcribe override.patchVulns with the proposed repair (stop when an iteration changes nothing)
 
 -----------------------------------------------------------------------------
 (* ---------------------------- (1) version algebra ---------------------- *)
@@ -141,20 +142,38 @@ EmptyMan == [direct |-> [p \in PkgSet |-> NoReq], mgmt |-> [p \in PkgSet |-> 0]]
 
 -----------------------------------------------------------------------------
 (* ---- the reference environment: RefResolve(manifest) = graph ---- *)
-RECURSIVE Grow(_, _, _, _)
-Grow(s, man, g, frontier) ==
+\* Maven flavour (deps.dev maven resolver, findMatch): a version must satisfy ALL hard (range) requirements that
+\* resolved packages place on it; a soft (pinned) requirement is only a preference. `hard` is the set of range
+\* requirements known so far on each package; dependencyManagement replaces transitive requirements by a soft pin.
+PickH(m, r, hard) ==
+  LET ok == {vi \in m : \A h \in hard : Sat(m, h, vi)} IN
+  IF r.kind = "pin" /\ r.at \in ok THEN r.at
+  ELSE LET c == IF r.kind = "pin" THEN ok ELSE {vi \in ok : Sat(m, r, vi)} IN IF c = {} THEN 0 ELSE Max(c)
+RECURSIVE Grow(_, _, _, _, _)
+Grow(s, man, g, frontier, hard) ==
   LET targets == {q \in PkgSet : g[q] = 0 /\ \E p \in frontier : DepReq(s, p, g[p], q).kind # "none"}
   IN IF targets = {} THEN g
      ELSE LET first(q) == CHOOSE p \in frontier : /\ DepReq(s, p, g[p], q).kind # "none"
                                                   /\ \A p2 \in frontier : DepReq(s, p2, g[p2], q).kind # "none" => Idx(p) <= Idx(p2)
               g2 == [q \in PkgSet |-> IF q \in targets
                                       THEN (IF man.mgmt[q] # 0 THEN man.mgmt[q]
-                                            ELSE Pick(s.menu[q], DepReq(s, first(q), g[first(q)], q)))
+                                            ELSE PickH(s.menu[q], DepReq(s, first(q), g[first(q)], q), hard[q]))
                                       ELSE g[q]]
-          IN Grow(s, man, g2, {q \in targets : g2[q] # 0})
+          IN Grow(s, man, g2, {q \in targets : g2[q] # 0}, hard)
+\* the range requirements the packages resolved in g place on q (none if q is managed: management wins)
+HardOn(s, man, g, q) == IF Eco # "Maven" \/ man.mgmt[q] # 0 THEN {}
+                        ELSE {DepReq(s, p, g[p], q) : p \in {x \in PkgSet : g[x] # 0 /\ DepReq(s, x, g[x], q).kind \notin {"none", "pin"}}}
+                             \cup (IF man.direct[q].kind \notin {"none", "pin"} THEN {man.direct[q]} ELSE {})
+ResolveWith(s, man, hard) ==
+  LET g1 == [p \in PkgSet |-> IF man.direct[p].kind = "none" THEN 0 ELSE PickH(s.menu[p], man.direct[p], hard[p])]
+  IN Grow(s, man, g1, {p \in PkgSet : g1[p] # 0}, hard)
+RECURSIVE Settle(_, _, _, _)
+Settle(s, man, g, k) == LET hard == [q \in PkgSet |-> HardOn(s, man, g, q)]
+                            g2 == ResolveWith(s, man, hard)
+                        IN IF g2 = g \/ k = 0 THEN g2 ELSE Settle(s, man, g2, k - 1)
 RefResolve(s, man) ==
-  LET g1 == [p \in PkgSet |-> IF man.direct[p].kind = "none" THEN 0 ELSE Pick(s.menu[p], man.direct[p])]
-  IN Grow(s, man, g1, {p \in PkgSet : g1[p] # 0})
+  LET g0 == ResolveWith(s, man, [q \in PkgSet |-> {}])
+  IN IF Eco = "Maven" THEN Settle(s, man, g0, Len(Pkgs)) ELSE g0
 \* a manifest the reference environment cannot resolve (a direct requirement matches nothing)
 Resolvable(s, man) == \A p \in PkgSet : man.direct[p].kind # "none" => Pick(s.menu[p], man.direct[p]) # 0
 
@@ -183,6 +202,7 @@ FoundAll(s, g) == {i \in VulnIds(s) : g[s.vulns[i].pkg] # 0 /\ AffectsV(s.vulns[
 MatchVuln(s, man, g, ign, i) ==
   LET q == s.vulns[i].pkg IN
   /\ i \notin ign
+  /\ (s.opt.explicit = {} \/ i \in s.opt.explicit)
   /\ (s.opt.devDeps \/ ~DevOnly(s, man, g, q))
   /\ (s.opt.minSev = 0 \/ s.vulns[i].sev # "low")
   /\ (s.opt.maxDepth <= 0 \/ Depth(s, man, g, q) <= s.opt.maxDepth)
@@ -256,7 +276,7 @@ Relax(s, d, req) ==
                      ELSE LET cmp  == IF diff0 = "major" THEN next ELSE last
                               diff == IF diff0 = "major" THEN "minor" ELSE diff0
                               best == RelaxBest(m, cmp, diff, level, next + 1, next, nextIsPre)
-                          IN [ok |-> TRUE, req |-> [kind |-> IF diff = "patch" THEN "tilde" ELSE "caret", at |-> best],
+                          IN [ok |-> TRUE, req |-> [kind |-> IF diff \in {"patch", "pre"} THEN "tilde" ELSE "caret", at |-> best],
                               viaPre |-> (diff = "pre")]
 \* DependencySubgraph.ConstrainingSubgraph + reqsToRelax: the direct requirements to relax for vulnerability i
 ConstrParents(s, man, g, i) ==
@@ -284,7 +304,7 @@ ToRelax(s, a) == UNION {DirectsToRelax(s, a.man, a.g, i) : i \in a.vs \cap a.ids
 SuggestOne(s, p, req, level) ==
   LET m == s.menu[p]
       cur == IF req.kind = "pin" THEN req.at ELSE (IF Matching(m, req) = {} THEN 0 ELSE Max(Matching(m, req)))
-  IN IF cur = 0 THEN [crash |-> TRUE, to |-> NoReq]
+  IN IF cur = 0 THEN [crash |-> FALSE, to |-> req]        \* no known version satisfies the requirement: nothing to upgrade from
      ELSE LET ok == {vi \in m : Allows(level, Diff(VT[vi], VT[cur]))}
               new == IF ok = {} THEN cur ELSE Max(ok)
           IN [crash |-> FALSE,
@@ -349,7 +369,7 @@ PairNo(pq) == Idx(pq[1]) * 10 + Idx(pq[2])
 EmptyRun == [g1 |-> [p \in PkgSet |-> 0], vs1 |-> {}, ign |-> {}, todo |-> {}, tried |-> {},
              att |-> [ids |-> {}, man |-> EmptyMan, g |-> [p \in PkgSet |-> 0], vs |-> {}, viaPre |-> FALSE, n |-> 0],
              patches |-> {}, order |-> <<>>, chosen |-> <<>>, written |-> EmptyMan,
-             g2 |-> [p \in PkgSet |-> 0], vs2 |-> {}, crash |-> FALSE]
+             g2 |-> [p \in PkgSet |-> 0], vs2 |-> {}, crash |-> FALSE, spin |-> FALSE]
 
 Init == /\ sc = [menu |-> [p \in PkgSet |-> {}], rule |-> [pq \in Pairs |-> NoRule], man |-> EmptyMan,
                  grp |-> [p \in PkgSet |-> ""], vulns |-> <<>>, levels |-> [p \in PkgSet \cup {"*"} |-> "-"], opt |-> OptOf("plain"),
@@ -468,8 +488,14 @@ AttemptStep ==
           THEN Finish(a, TRUE)                                      \* all fixed, or nothing more can be patched
           ELSE LET man2 == ApplyPins(a.man, pins, 1)
                    g2 == RefResolve(sc, man2)
-               IN /\ run' = [run EXCEPT !.att = [a EXCEPT !.man = man2, !.g = g2, !.vs = Found(sc, man2, g2, run.ign), !.n = a.n + 1]]
-                  /\ UNCHANGED pc
+               IN IF man2 = a.man /\ ~FixOverrideLoop
+                  THEN \* the pins of this iteration were already in the manifest and did not take effect: the code sets
+                       \* didPatch and re-resolves the same manifest - the same iteration repeats forever
+                       /\ run' = [run EXCEPT !.spin = TRUE]
+                       /\ pc' = [ph |-> "spin", i |-> 0]
+                  ELSE IF man2 = a.man THEN Finish(a, TRUE)
+                  ELSE /\ run' = [run EXCEPT !.att = [a EXCEPT !.man = man2, !.g = g2, !.vs = Found(sc, man2, g2, run.ign), !.n = a.n + 1]]
+                       /\ UNCHANGED pc
      ELSE LET tr == ToRelax(sc, a) IN
           IF tr = {} THEN Finish(a, TRUE)
           ELSE IF \E d \in tr : ~Relax(sc, d, a.man.direct[d]).ok THEN Finish(a, FALSE)     \* ErrPatchImpossible
@@ -516,19 +542,32 @@ Next == SetupMenu \/ SetupRule \/ SetupDirect \/ SetupVuln \/ SetupCfg
         \/ Resolve \/ FindVulns \/ StartAttempt \/ AttemptStep \/ Choose \/ Suggest \/ Write \/ ReResolve \/ ReFindVulns
 Spec == Init /\ [][Next]_vars
 
-Terminal == pc.ph \in {"done", "error"}
+Terminal == pc.ph \in {"done", "error", "spin"}
 
 -----------------------------------------------------------------------------
 (* ---------------------------- properties ------------------------------- *)
-\* open findings: as-built deviations of /repo that are excused in the completeness invariants when listed in Devs
-\*  "C11-relax-prerelease-caret": NpmRelaxer.Relax writes "^best" after a step whose difference is only the
-\*      pre-release status, which admits minor upgrades even when the level is patch
-\*  "C12-explicit-introduced": the explicit list is turned into an ignore list once, from the first graph, so a
-\*      vulnerability introduced by a patch is reported although a fresh analysis with the same options ignores it
-\*  "C11-update-nil-range": suggestMavenVersion dereferences nil when a range requirement matches no version
+\* open findings: as-built deviations of /repo that are excused in the completeness invariants when listed in Devs.
+\* Three were found by this check and repaired in /repo (the transcription above follows the repaired code):
+\*  "C11-relax-prerelease-caret" (fix c843e777): NpmRelaxer.Relax wrote "^best" after a step whose difference is only
+\*      the pre-release status, which admits minor upgrades even when the level is patch
+\*  "C12-explicit-introduced" (fix 91b025e2): the explicit list was turned into an ignore list once, from the first graph
+\*  "C11-update-nil-range" (fix 10bc72b4): suggestMavenVersion dereferenced nil when a range matched no version
+\* and one is a property of the as-built transcription (FixOverrideLoop = FALSE):
+\*  "C11-override-ineffective-pin-loop": override.patchVulns repeats the same iteration forever when its pin does
+\*      not take effect (a direct soft Maven requirement loses against a transitive hard range)
 DevPreCaret(p) == "C11-relax-prerelease-caret" \in Devs /\ p.viaPre
 DevExplicit(p) == "C12-explicit-introduced" \in Devs /\ sc.opt.explicit # {} /\ ~(p.intro \subseteq sc.opt.explicit)
 DevNilRange == "C11-update-nil-range" \in Devs /\ run.crash
+DevSpin == "C11-override-ineffective-pin-loop" \in Devs /\ run.spin
+\* Both remaining ones come from the Maven rule that a hard (range) requirement anywhere beats a soft version:
+\*  "C11-override-unfixing-patch": with the loop repaired (ce5b7bda) the attempt ends and the override that did not take
+\*      effect stays in a patch that fixes nothing: a requirement is rewritten although the package does not move up
+\*  "C11-update-maven-hard-range": the bulk update rewrites requirements to soft versions without resolving; where a
+\*      hard range on the same package exists the rewrite has no effect (or lets another range take over)
+DevUnfixing(p) == "C11-override-unfixing-patch" \in Devs /\ Strategy = "override" /\ p.fixed = {}
+HardInvolved(u) == u.from.kind \notin {"none", "pin"}
+                   \/ \E q \in PkgSet : \E vi \in sc.menu[q] : DepReq(sc, q, vi, u.name).kind \notin {"none", "pin"}
+DevUpdateHard(u) == "C11-update-maven-hard-range" \in Devs /\ Strategy = "update" /\ HardInvolved(u)
 
 \* base(u): the version u.name resolves to under manifest + (patch minus u); after(u): under manifest + patch
 BaseOf(p, u) == RefResolve(sc, ApplyUpdates(sc.man, p.ups \ {u}))[u.name]
@@ -537,11 +576,17 @@ UpdateOK(p, u) == LET b == BaseOf(p, u) a == AfterOf(p, u) IN
                   /\ LevelOf(sc, u.name) # "none"
                   /\ (b # 0 /\ a # 0) => ChangeOK(LevelOf(sc, u.name), VT[b], VT[a])
 \* C11: every dependency change of every proposed (hence every applied) patch
-C11 == \A p \in run.patches : \A u \in p.ups : UpdateOK(p, u) \/ DevPreCaret(p)
-\* the same for the attempt in progress, at every iteration ("does the level check still apply after the first step")
-C11EveryStep == pc.ph = "iter" => LET p == MkPatch(sc, sc.man, run.vs1, run.att) IN \A u \in p.ups : UpdateOK(p, u) \/ DevPreCaret(p)
-\* no crash
+C11 == \A p \in run.patches : \A u \in p.ups : UpdateOK(p, u) \/ DevPreCaret(p) \/ DevUnfixing(p) \/ DevUpdateHard(u)
+\* the attempt in progress, at every iteration ("does the level check still apply after the first step"): whatever
+\* has moved so far has moved upward within its level (strictness is demanded of finished patches only: a pin that
+\* has not taken effect yet is not a proposed change)
+StepOK(p, u) == LET b == BaseOf(p, u) a == AfterOf(p, u) IN
+                /\ LevelOf(sc, u.name) # "none"
+                /\ (b # 0 /\ a # 0 /\ a # b) => ChangeOK(LevelOf(sc, u.name), VT[b], VT[a])
+C11EveryStep == pc.ph = "iter" => LET p == MkPatch(sc, sc.man, run.vs1, run.att) IN \A u \in p.ups : StepOK(p, u) \/ DevPreCaret(p)
+\* no crash, no divergence
 C11NoCrash == ~run.crash \/ DevNilRange
+C11Terminates == ~run.spin \/ DevSpin
 
 \* termination variant of the attempt loop: the requirement upper bounds only move up, strictly in every iteration
 Bound(man, p) == IF man.direct[p].kind # "none" THEN (IF Matching(sc.menu[p], man.direct[p]) = {} THEN 0 ELSE Max(Matching(sc.menu[p], man.direct[p])))
@@ -587,12 +632,15 @@ Case == [family |-> Family, universe |-> CaseUniverse,
          levels |-> {<<p, sc.levels[p]>> : p \in {x \in PkgSet \cup {"*"} : sc.levels[x] # "-"}},
          opt |-> sc.optname,
          model |-> [patches |-> Cardinality(run.patches), chosen |-> Len(run.chosen), vulns1 |-> Cardinality(run.vs1),
-                    vulns2 |-> Cardinality(run.vs2), error |-> (pc.ph = "error"),
+                    vulns2 |-> Cardinality(run.vs2), error |-> (pc.ph \in {"error", "spin"}),
                     updates |-> Cardinality(UNION {p.ups : p \in run.patches}), intro |-> (\E p \in run.patches : p.intro # {})],
          devs |-> {d \in {"C11-relax-prerelease-caret"} : \E p \in run.patches : p.viaPre /\ \E u \in p.ups : ~UpdateOK(p, u)}
                   \cup {d \in {"C12-explicit-introduced"} : AppliedOne /\ LET p == run.order[run.chosen[1]] IN
                                                              sc.opt.explicit # {} /\ ~(p.intro \subseteq sc.opt.explicit)}
-                  \cup {d \in {"C11-update-nil-range"} : run.crash}]
+                  \cup {d \in {"C11-update-nil-range"} : run.crash}
+                  \cup {d \in {"C11-override-ineffective-pin-loop"} : run.spin}
+                  \cup {d \in {"C11-override-unfixing-patch"} : Strategy = "override" /\ \E p \in run.patches : p.fixed = {} /\ \E u \in p.ups : ~UpdateOK(p, u)}
+                  \cup {d \in {"C11-update-maven-hard-range"} : Strategy = "update" /\ \E p \in run.patches : \E u \in p.ups : HardInvolved(u) /\ ~UpdateOK(p, u)}]
 Emit == Terminal => PrintT(ToJson(Case))
 
 \* sanity (each must be violated: the antecedents of the properties are reachable)
